@@ -52,7 +52,9 @@ inductive Expr where
   | compare (id : Nat) (left : Expr) (rest : List (CmpOp × Expr))
   | ifexp (id : Nat) (c : Expr) (t : Expr) (e : Expr)
   | display (id : Nat) (es : List Expr)                       -- list display
-  | comp (id : Nat) (targets : List String) (inner : List Expr)  -- comprehension: executed natively, `inner` = its parts
+  | comp (id : Nat) (targets : List String) (first : Expr) (inner : List Expr)
+      -- comprehension: executed natively; `first` = the iterable of its first `for` (Python evaluates it in the ENCLOSING
+      -- scope), `inner` = its other parts (element, filters, later iterables: evaluated in the comprehension's own scope)
   -- forms added in the second version of the model (`_recompute.py`: `_visit_elts`, `visit_Tuple`, `visit_Set`,
   -- `visit_Dict`, `visit_Slice`, the starred / keyword part of `visit_Call`, `visit_FormattedValue`, `visit_JoinedStr`)
   | starred (id : Nat) (e : Expr)                               -- `*e`: only meaningful as an element of `coll` / an argument of `callkw`
@@ -66,7 +68,7 @@ deriving Repr, Inhabited
 
 def Expr.id : Expr → Nat
   | .const i _ | .name i _ | .attr i _ _ | .subscr i _ _ | .call i _ _ | .unary i _ _ | .bin i _ _ _
-  | .boolop i _ _ | .compare i _ _ | .ifexp i _ _ _ | .display i _ | .comp i _ _
+  | .boolop i _ _ | .compare i _ _ | .ifexp i _ _ _ | .display i _ | .comp i _ _ _
   | .starred i _ | .coll i _ _ | .dict i _ | .slice i _ _ _ | .callkw i _ _ _ | .fvalue i _ _ _ | .fstring i _ => i
 
 /-- the semantics of everything the expression does to values -/
